@@ -43,6 +43,8 @@ def _is_idle_predicate(fn) -> bool:
 
 
 def run(ctx: Ctx) -> None:
+    if getattr(ctx, "_depth", 0) >= 2:
+        return  # alias of an alias: not followed (breaks import cycles between rule modules)
     repo = ctx.repo
     ctx.rule("C07.R1", "idle signalling: HTTP/1 announces busy (Updated(idle=False)) first thing in the request arm and idle after recycling; HTTP/2 announces busy after creating a stream and, after every removal of a stream (StreamClosed, RST_STREAM), announces the idleness recomputed AFTER the removal", floor=6)
     ctx.rule("C07.R3", "terminal release: handle(Closed) sets every event its reader / send task can be parked on, and the parking loops re-test a flag written by the Closed arm", floor=3)
@@ -132,6 +134,12 @@ def run(ctx: Ctx) -> None:
     st = repo.func(M2, "H2Protocol.send_task")
     loops = [n for n in walk_local(st) if isinstance(n, ast.While)]
     ok = ok and len(loops) == 1 and norm(loops[0].test) == "not self.closed"
+    cs_calls = find_in(arm.body, "self._close_stream")
+    okc = len(cs_calls) == 1
+    if okc:
+        lp = [a for a in ancestors(cs_calls[0]) if isinstance(a, (ast.For, ast.AsyncFor))]
+        okc = len(lp) >= 1 and "self.streams" in provenance(lp[0].iter, hd2).leaves and "self.stream_buffers" not in provenance(lp[0].iter, hd2).leaves and not guard_atoms(cs_calls[0], stop=lp[0])
+    ctx.check("C07.R3", f"{M2}:H2Protocol.handle", "Closed: every stream in the stream table is closed (told StreamClosed)", okc, "the connection-closed path must walk self.streams: a stream whose send buffer is already gone (response fully sent, application still running) would never be told the client went away, and its task keeps the connection's task group open", cs_calls[0] if cs_calls else arm)
     ctx.check("C07.R3", f"{M2}:H2Protocol.handle", "Closed: closed=True, has_data.set(); send_task loops `while not self.closed`", ok, "the HTTP/2 send task would stay parked on has_data after the connection closed", arm)
     hd11 = repo.func(M11, "H11Protocol.handle")
     arm = arm_for(hd11, "event", "Closed")
@@ -266,6 +274,9 @@ def run(ctx: Ctx) -> None:
         return
     from . import c06
 
+    from . import c10
+
+    c10.run(Alias(ctx, "C07.R12", "WebSocket: every CloseConnection event ends the stream, so the connection is closed instead of lingering until the client gives up (C10.R5)", only={"C10.R5"}))
     c06.run(Alias(ctx, "C07.R10", "a reader parked behind an unfinished pipelined request is released on the recycle AND on the close path of _maybe_recycle, so the connection handler can finish (C06.R3)", only={"C06.R3"}))
     c16.run(Alias(ctx, "C07.R9", "both workers realise the same connection-handler, idle-timer and single-task skeletons (C16.R2 on TCPServer.*, C16.R3 on the SingleTask helpers: cancel/replace under the lock)", only={"C16.R2", "C16.R3"}, where=["TCPServer.", "SingleTask."]))
     ctx.assume("not decided: expiry instants, that a busy connection is never closed by the timer under every interleaving, virtual-time behaviour; C07.R2 (stream-generated error responses end the stream) is decided by the typestate analysis reported under this property")
